@@ -1,5 +1,6 @@
 import SpVerif.Proofs.Prefix
 import SpVerif.Proofs.PrefixPdu
+import SpVerif.Props.C12
 /-!
 # C09 — decoders never read past the declared packet; trailing octets cannot leak in
 
@@ -141,6 +142,17 @@ theorem C09_fs_response_exact (d : Bytes) (t : FileStoreResponseTlv)
     (hu : FileStoreResponseTlv.unpack d = .ok t) (hx : t.packetLen = tlvDeclaredLen d) :
     PrefixOnly FileStoreResponseTlv.unpack d t t.packetLen :=
   prefixOnly_of (fsResponse_localAt hu hx)
+
+/-- **the former slack witness is refused** (adapted by C08 after /repo commit d425927: `from_tlv`
+    refuses a value field that does not end with the names / the message LV, and the model follows).
+    The request TLV declaring 12 octets whose value holds three octets after the file name — which the
+    unrepaired decoder accepted while reporting 9 — is now a `ValueError`; every accepted filestore
+    TLV reports exactly the declared length (`Tlv.FileStoreRequestTlv.fromTlv_len_exact`,
+    `Tlv.FileStoreResponseTlv.fromTlv_len_exact`, `C08_fs_request_len_exact`), so the hypothesis
+    `hx` of `C09_fs_request_exact` / `C09_fs_response_exact` can be discharged unconditionally. -/
+theorem C09_fs_request_slack_witness :
+    FileStoreRequestTlv.unpack [0, 10, 0, 5, 0x61, 0x2E, 0x74, 0x78, 0x74, 1, 2, 3] = .error .value := by
+  decide
 
 /-- a packed filestore TLV (buffer length = reported length) reports the declared length -/
 theorem C09_fs_packed_exact (d : Bytes) :
@@ -352,10 +364,10 @@ example : Kind.tlv.decode [6, 2, 0xAB, 0xCD, 6, 0] = .ok (.tlv ⟨6, [0xAB, 0xCD
 -- a mixed buffer (TLV, LV, request id) with a tail is split by the reported lengths
 example : splitKinds [.tlv, .lv, .reqId] ([6, 2, 0xAB, 0xCD] ++ [3, 1, 2, 3] ++ [0x18, 0x2A, 0xC0, 0x07] ++ [0xFF]) =
     .ok ([.tlv ⟨6, [0xAB, 0xCD]⟩, .lv ⟨[1, 2, 3]⟩, .reqId ⟨0, ⟨1, 1, 0x2A⟩, ⟨3, 7⟩⟩], [0xFF]) := by decide
--- the filestore observation: a request whose value field holds three octets more than its names
--- is accepted, declares 12 octets and reports 9; its first 9 octets alone are refused
+-- the former filestore observation: a request whose value field holds three octets more than its
+-- names (declares 12 octets, names end after 9) is refused since the repair of `_set_fields`
 example : FileStoreRequestTlv.unpack [0, 10, 0, 5, 0x61, 0x2E, 0x74, 0x78, 0x74, 1, 2, 3] =
-    .ok ⟨0, [0x61, 0x2E, 0x74, 0x78, 0x74], []⟩ := by decide
+    .error .value := by decide
 example : (FileStoreRequestTlv.mk 0 [0x61, 0x2E, 0x74, 0x78, 0x74] []).packetLen = 9 ∧
     tlvDeclaredLen [0, 10, 0, 5, 0x61, 0x2E, 0x74, 0x78, 0x74, 1, 2, 3] = 12 := by decide
 example : FileStoreRequestTlv.unpack ([0, 10, 0, 5, 0x61, 0x2E, 0x74, 0x78, 0x74, 1, 2, 3].take 9) = .error .value := by
@@ -364,40 +376,74 @@ example : FileStoreRequestTlv.unpack ([0, 10, 0, 5, 0x61, 0x2E, 0x74, 0x78, 0x74
 
 /-! # Second half: complete CFDP PDUs followed by further octets
 
-Decoders: the models of C06 (ACK, Prompt, Keep Alive, NAK) and C07 (File Data). For every kind `K`
-and **every** accepted buffer `d` with result `r`: the declared PDU (`packet_len` octets) lies inside
-`d` and decoding exactly those octets gives `r` (`C09_pdu_declared`); the same PDU followed by any
-octets is decoded to `r` again or refused with a documented error (`C09_pdu_trailing`) — ACK, Prompt,
-Keep Alive and File Data always decode it (`C09_ack` …), NAK always refuses it with `ValueError`
-(`C09_nak_trailing`, by design of the library's own test-suite). `C09_K_no_fold`: the decoded PDU is
-the value of the parameter parser on the directive base and the declared PDU **minus its CRC
+Decoders: the models of C06 (EOF, Finished, ACK, Metadata, NAK, Prompt, Keep Alive) and C07
+(File Data). The length that delimits a PDU is the one its fixed header **declares**
+(`cfdpDeclaredLen d`: data-field length + header length, octets 1–3). For every kind `K` and
+**every** accepted buffer `d` with result `r`: the declared PDU lies inside `d` and decoding exactly
+those octets gives `r` (`C09_pdu_declared`); the same PDU followed by any octets is decoded to `r`
+again or refused with a documented error (`C09_pdu_trailing`) — all kinds but NAK always decode it
+(`C09_eof` … `C09_file_data`, `C09_pdu_suffix`), NAK always refuses it with `ValueError`
+(`C09_nak_trailing`, by design of the library's own test-suite). The decoded object reports exactly
+the declared length, except EOF (≤: it recomputes its length from the fault-location TLV it decoded)
+and Finished (recomputed from the decoded TLVs) — `C09_pdu_reported`. `C09_K_no_fold`: the decoded
+PDU is the value of the parameter parser on the directive base and the declared PDU **minus its CRC
 trailer** — octets beyond the declared length and the trailer itself never reach the parameters,
-file data or segment requests. (EOF, Finished, Metadata: when their models arrive.) -/
+file data, options, filestore responses or segment requests. -/
 
-/-- ACK PDU (`AckPdu.unpack`, `packet_len`) -/
+open SpVerif.CfdpCrc in
+/-- the uniform per-PDU statement, on the declared length -/
+def DeclaredOnly {α : Type} (dec : Bytes → Py α) (d : Bytes) (r : α) : Prop :=
+  PrefixOnly dec d r (cfdpDeclaredLen d)
+
+private theorem declaredOnly_of {α : Type} {dec : Bytes → Py α} (h : DeclLocal dec) {d : Bytes} {r : α}
+    (hu : dec d = .ok r) : DeclaredOnly dec d r := by
+  obtain ⟨hl, hloc⟩ := h d r hu
+  have hlen : (d.take (CfdpCrc.cfdpDeclaredLen d)).length = CfdpCrc.cfdpDeclaredLen d := by
+    rw [List.length_take]; omega
+  refine ⟨hl, h.take d r hu, fun s => ?_, hloc⟩
+  exact hloc _ (by rw [List.take_append_of_le_length (by omega), List.take_take, Nat.min_self])
+    (by rw [List.length_append]; omega)
+
+/-- ACK PDU (`AckPdu.unpack`); the object reports the declared length -/
 theorem C09_ack (d : Bytes) (a : Ack.Ack) (hu : Ack.Ack.unpack d = .ok a) :
-    PrefixOnly Ack.Ack.unpack d a a.packetLen :=
-  prefixOnly_of (ack_local d a hu)
+    DeclaredOnly Ack.Ack.unpack d a ∧ a.packetLen = CfdpCrc.cfdpDeclaredLen d :=
+  ⟨declaredOnly_of ack_declLocal hu, ack_declared hu⟩
 
 /-- Prompt PDU -/
 theorem C09_prompt (d : Bytes) (a : Prompt.Prompt) (hu : Prompt.Prompt.unpack d = .ok a) :
-    PrefixOnly Prompt.Prompt.unpack d a a.packetLen :=
-  prefixOnly_of (prompt_local d a hu)
+    DeclaredOnly Prompt.Prompt.unpack d a ∧ a.packetLen = CfdpCrc.cfdpDeclaredLen d :=
+  ⟨declaredOnly_of prompt_declLocal hu, prompt_declared hu⟩
 
 /-- Keep Alive PDU -/
 theorem C09_keep_alive (d : Bytes) (a : KeepAlive.KeepAlive) (hu : KeepAlive.KeepAlive.unpack d = .ok a) :
-    PrefixOnly KeepAlive.KeepAlive.unpack d a a.packetLen :=
-  prefixOnly_of (keepAlive_local d a hu)
+    DeclaredOnly KeepAlive.KeepAlive.unpack d a ∧ a.packetLen = CfdpCrc.cfdpDeclaredLen d :=
+  ⟨declaredOnly_of keepAlive_declLocal hu, keepAlive_declared hu⟩
+
+/-- Metadata PDU: names and options come from the declared PDU only -/
+theorem C09_metadata (d : Bytes) (a : Metadata.Metadata) (hu : Metadata.Metadata.unpack d = .ok a) :
+    DeclaredOnly Metadata.Metadata.unpack d a ∧ a.packetLen = CfdpCrc.cfdpDeclaredLen d :=
+  ⟨declaredOnly_of metadata_declLocal hu, metadata_declared hu⟩
 
 /-- File Data PDU: offset, file data and segment metadata come from the declared PDU only -/
 theorem C09_file_data (d : Bytes) (x : FileData.Pdu) (hu : FileData.Pdu.unpack d = .ok x) :
-    PrefixOnly FileData.Pdu.unpack d x x.packetLen :=
-  prefixOnly_of (fileData_local d x hu)
+    DeclaredOnly FileData.Pdu.unpack d x ∧ x.packetLen = CfdpCrc.cfdpDeclaredLen d :=
+  ⟨declaredOnly_of fileData_declLocal hu, fileData_declared hu⟩
+
+/-- EOF PDU: the fault location comes from the declared PDU only; the decoded object reports at
+    most the declared length -/
+theorem C09_eof (d : Bytes) (a : Eof.Eof) (hu : Eof.Eof.unpack d = .ok a) :
+    DeclaredOnly Eof.Eof.unpack d a ∧ a.packetLen ≤ CfdpCrc.cfdpDeclaredLen d :=
+  ⟨declaredOnly_of eof_declLocal hu, eof_reported_le hu⟩
+
+/-- Finished PDU: filestore responses and fault location come from the declared PDU only -/
+theorem C09_finished (d : Bytes) (a : Finished.Finished) (hu : Finished.Finished.unpack d = .ok a) :
+    DeclaredOnly Finished.Finished.unpack d a :=
+  declaredOnly_of finished_declLocal hu
 
 /-- NAK PDU: an accepted buffer is *exactly* the declared PDU -/
 theorem C09_nak (d : Bytes) (k : Nak.Nak) (hu : Nak.Nak.unpack d = .ok k) :
-    d.length = k.packetLen ∧ Nak.Nak.unpack (d.take k.packetLen) = .ok k :=
-  ⟨nak_exact hu, (nak_restricts d k hu).2⟩
+    d.length = k.packetLen ∧ k.packetLen = CfdpCrc.cfdpDeclaredLen d ∧ Nak.Nak.unpack (d.take k.packetLen) = .ok k :=
+  ⟨nak_exact hu, nak_declared hu, (nak_restricts d k hu).2⟩
 
 /-- … and followed by at least one octet it is refused with the documented `ValueError`: trailing
     octets are never folded into segment requests (for every accepted NAK PDU, not only packed ones) -/
@@ -408,45 +454,61 @@ theorem C09_nak_trailing (d : Bytes) (k : Nak.Nak) (hu : Nak.Nak.unpack d = .ok 
 /-- **every PDU kind**: the declared PDU lies inside every accepted buffer and decoding exactly the
     declared PDU gives the same result -/
 theorem C09_pdu_declared (k : PduKind) (d : Bytes) (r : PduDecoded) (hu : k.decode d = .ok r) :
-    r.len ≤ d.length ∧ k.decode (d.take r.len) = .ok r :=
-  PduKind.restricts k d r hu
+    CfdpCrc.cfdpDeclaredLen d ≤ d.length ∧ k.decode (d.take (CfdpCrc.cfdpDeclaredLen d)) = .ok r :=
+  PduKind.declRestricts k d r hu
+
+/-- the decoded object's `packet_len` is the declared length (EOF: at most; Finished: no claim) -/
+theorem C09_pdu_reported (k : PduKind) (d : Bytes) (r : PduDecoded) (hu : k.decode d = .ok r) :
+    (k ≠ .eof → k ≠ .finished → r.len = CfdpCrc.cfdpDeclaredLen d) ∧
+    (k = .eof → r.len ≤ CfdpCrc.cfdpDeclaredLen d) :=
+  PduKind.reported k d r hu
 
 /-- **every PDU kind**: the declared PDU followed by any octets is decoded exactly as the PDU alone
     or refused with a documented error -/
 theorem C09_pdu_trailing (k : PduKind) (d : Bytes) (r : PduDecoded) (hu : k.decode d = .ok r) (s : Bytes) :
-    k.decode (d.take r.len ++ s) = .ok r ∨
-      ∃ e, k.decode (d.take r.len ++ s) = .error e ∧ e.documented = true := by
+    k.decode (d.take (CfdpCrc.cfdpDeclaredLen d) ++ s) = .ok r ∨
+      ∃ e, k.decode (d.take (CfdpCrc.cfdpDeclaredLen d) ++ s) = .error e ∧ e.documented = true := by
   cases hk : k.acceptsTrailing with
-  | true => exact Or.inl ((PduKind.local k hk d r hu).take_append s)
+  | true =>
+    obtain ⟨hl, hloc⟩ := PduKind.declLocal k hk d r hu
+    left
+    have hlen : (d.take (CfdpCrc.cfdpDeclaredLen d)).length = CfdpCrc.cfdpDeclaredLen d := by
+      rw [List.length_take]; omega
+    exact hloc _ (by rw [List.take_append_of_le_length (by omega), List.take_take, Nat.min_self])
+      (by rw [List.length_append]; omega)
   | false =>
     cases k <;> try cases hk
     by_cases hs : s = []
-    · subst hs; rw [List.append_nil]; exact Or.inl (PduKind.restricts .nak d r hu).2
+    · subst hs; rw [List.append_nil]; exact Or.inl (PduKind.declRestricts .nak d r hu).2
     · right
       have h' : PduDecoded.nak <$> Nak.Nak.unpack d = .ok r := hu
       cases hn : Nak.Nak.unpack d with
       | error e => rw [hn] at h'; cases h'
       | ok x =>
-        rw [hn] at h'
-        have hr : r = .nak x := (Except.ok.inj h').symm
-        subst hr
-        have hl : (PduDecoded.nak x).len = x.packetLen := rfl
-        have ht : d.take x.packetLen = d := List.take_of_length_le (by rw [nak_exact hn]; exact Nat.le_refl _)
+        have e : CfdpCrc.cfdpDeclaredLen d = d.length := by rw [← nak_declared hn, nak_exact hn]
         refine ⟨.value, ?_, rfl⟩
-        show PduDecoded.nak <$> Nak.Nak.unpack (d.take (PduDecoded.nak x).len ++ s) = _
-        rw [hl, ht, nak_trailing_refused hn s hs]; rfl
+        show PduDecoded.nak <$> Nak.Nak.unpack (d.take (CfdpCrc.cfdpDeclaredLen d) ++ s) = _
+        rw [e, List.take_of_length_le (Nat.le_refl _), nak_trailing_refused hn s hs]; rfl
 
 /-- the kinds that accept a longer buffer (all but NAK) decode it exactly as the PDU alone -/
 theorem C09_pdu_suffix (k : PduKind) (hk : k.acceptsTrailing = true) (d : Bytes) (r : PduDecoded)
     (hu : k.decode d = .ok r) (s : Bytes) : k.decode (d ++ s) = k.decode d := by
-  rw [hu]; exact (PduKind.local k hk d r hu).append s
+  rw [hu]; exact (PduKind.declLocal k hk).extends d r s hu
 
 /-- … so a buffer of such PDUs back to back is split into exactly those PDUs by the reported
     `packet_len`s (no bound on their number) -/
 theorem C09_split_pdu (k : PduKind) (hk : k.acceptsTrailing = true) (units : List (Bytes × PduDecoded))
     (hp : ∀ u ∈ units, k.decode u.1 = .ok u.2 ∧ u.2.len = u.1.length) (tail : Bytes) :
     splitN k.codec units.length ((units.map (·.1)).flatten ++ tail) = .ok (units.map (·.2), tail) :=
-  splitN_concat k.codec (PduKind.local k hk).extends units hp tail
+  splitN_concat k.codec (fun d r s h => (PduKind.declLocal k hk).extends d r s h) units hp tail
+
+/-- the factory route (`PduFactory.from_raw`, C12): a packed PDU of any kind the factory model
+    covers, followed by further octets, is dispatched to the same PDU or refused with a documented
+    error -/
+theorem C09_factory_trailing (p : Factory.AnyPdu) (wf : C12.WFPdu p) (rest : Bytes) :
+    Factory.fromRaw (C12.Spec.octets p ++ rest) = Factory.fromRaw (C12.Spec.octets p) ∨
+    ∃ e, Factory.fromRaw (C12.Spec.octets p ++ rest) = .error e ∧ e.documented = true :=
+  C12.C12_dispatch_trailing p wf rest
 
 private theorem paramsEnd_eq (fd : FileDirective.FileDirective) :
     fd.paramsEnd = fd.packetLen - (if fd.header.conf.crcFlag = 1 then 2 else 0) := by
@@ -477,6 +539,38 @@ theorem C09_nak_no_fold (d : Bytes) (k : Nak.Nak) (hu : Nak.Nak.unpack d = .ok k
   obtain ⟨_, hf, hl, _⟩ := Nak.unpack_inv d k hu
   rw [hl] at hf
   exact ⟨paramsEnd_eq k.fd, hf⟩
+
+/-- **no fold, Metadata**: file size, names and every option TLV -/
+theorem C09_metadata_no_fold (d : Bytes) (a : Metadata.Metadata) (hu : Metadata.Metadata.unpack d = .ok a) :
+    a.fd.paramsEnd = a.packetLen - (if a.fd.header.conf.crcFlag = 1 then 2 else 0) ∧
+    Metadata.parse (a.fd, d.take a.fd.paramsEnd) = .ok a := by
+  obtain ⟨p, hp, hf, _⟩ := Metadata.unpack_inv d a hu
+  have : p = d.take a.fd.paramsEnd := ((FileDirective.prelude_ok_iff d a.fd p).mp hp).2.2.2.2
+  rw [this] at hf
+  exact ⟨paramsEnd_eq a.fd, hf⟩
+
+/-- **no fold, EOF**: with `fd` the directive base the header declares (its `packet_len` is the
+    declared length), condition code, checksum, file size and fault location are the parser's value
+    on `fd` and the first `declared − crc` octets -/
+theorem C09_eof_no_fold (d : Bytes) (a : Eof.Eof) (hu : Eof.Eof.unpack d = .ok a) :
+    ∃ fd : FileDirective.FileDirective, fd.packetLen = CfdpCrc.cfdpDeclaredLen d ∧
+      fd.paramsEnd = fd.packetLen - (if fd.header.conf.crcFlag = 1 then 2 else 0) ∧
+      Eof.parse (fd, d.take fd.paramsEnd) = .ok a := by
+  obtain ⟨fd, p, hp, hf, _⟩ := Eof.unpack_inv d a hu
+  have : p = d.take fd.paramsEnd := ((FileDirective.prelude_ok_iff d fd p).mp hp).2.2.2.2
+  rw [this] at hf
+  exact ⟨fd, prelude_declared hp, paramsEnd_eq fd, hf⟩
+
+/-- **no fold, Finished**: condition code, delivery code, file status, every filestore response and
+    the fault location -/
+theorem C09_finished_no_fold (d : Bytes) (a : Finished.Finished) (hu : Finished.Finished.unpack d = .ok a) :
+    ∃ fd : FileDirective.FileDirective, fd.packetLen = CfdpCrc.cfdpDeclaredLen d ∧
+      fd.paramsEnd = fd.packetLen - (if fd.header.conf.crcFlag = 1 then 2 else 0) ∧
+      Finished.parse (fd, d.take fd.paramsEnd) = .ok a := by
+  obtain ⟨fd, p, hp, hf, _⟩ := Finished.unpack_inv d a hu
+  have : p = d.take fd.paramsEnd := ((FileDirective.prelude_ok_iff d fd p).mp hp).2.2.2.2
+  rw [this] at hf
+  exact ⟨fd, prelude_declared hp, paramsEnd_eq fd, hf⟩
 
 /-- **no fold, File Data**: header, metadata, offset and file data, laid out, ARE the first
     `packet_len − crc` octets of the buffer — not one octet of the trailer or of what follows -/
